@@ -40,7 +40,10 @@ Theorem C16_exp_is_ttl_later : forall st iss sub ttl now jti custom t,
 Proof. exact exp_is_ttl_later. Qed.
 Print Assumptions C16_exp_is_ttl_later.
 
-(** a key-store file is loaded (at start-up and on reload) iff it is usable, and then
+(** (refinement lemma, not listed as a property theorem: model and specification of the
+    acceptance of key-store files are two transcriptions by the same hand; what ties them
+    to heimdall is the correspondence run)
+    a key-store file is loaded (at start-up and on reload) iff it is usable, and then
     the three guarded fields are exactly: the active entry's public JWK, its private
     key, the public JWKs of all entries *)
 Theorem C16_load_accepts_exactly_usable : forall cfg_kid f st,
@@ -75,7 +78,9 @@ Proof.
 Qed.
 Print Assumptions C16_token_verifies_against_published.
 
-(** the published set: one JWK per entry of the store, public half only, with the
+(** (holds by construction of [entry_jwk] in the model; the evidence about heimdall is the
+    driver's scan of every served JWKS body for members outside a white-list of public ones)
+    the published set: one JWK per entry of the store, public half only, with the
     entry's key id, algorithm and certificates *)
 Theorem C16_jwks_public_only : forall cfg_kid f st,
   load cfg_kid f = Ok st ->
